@@ -50,6 +50,11 @@ def box(l1: int, halves: bool = True) -> list[tuple]:
                     v2 = list(v)
                     v2[i + 1] = Fraction(1)
                     out.append(tuple(v2))
+        for i in (0, 2):  # almost dimensionless
+            for h in (Fraction(1, 250), Fraction(-1, 1000)):
+                v = [Fraction(0)] * 7
+                v[i] = h
+                out.append(tuple(v))
     return out
 
 
@@ -87,6 +92,12 @@ def neighbours(v: tuple) -> Iterator[tuple]:
     yield tuple(Fraction(0) for _ in v)
     yield tuple(-x for x in v)
     yield tuple(2 * x for x in v)
+    # exponents that differ by less than any rounding a dimension check might be tempted to do
+    for i in (0, 2, 4):
+        for eps in (Fraction(1, 1000), Fraction(-1, 250), Fraction(1, 10**6)):
+            w = list(v)
+            w[i] += eps
+            yield tuple(w)
 
 
 def verdict(declared: tuple, actual: tuple, absorbing: bool = False) -> str:
